@@ -68,12 +68,23 @@ def toSnake (s : Str) : Str := snakeGo false (trimSpace s)
 /-! ### field properties -/
 
 inductive PErr where
-  | err (tag : String)
+  /-- an error and (once known) the header cursor protogen reports it at -/
+  | err (tag : String) (cursor : Option Nat := none)
   | unmodelled
   | fuel
 deriving DecidableEq, Repr
 
 abbrev PRes (α : Type) := Except PErr α
+
+/-- attach the cursor to an error that has none yet (`return cursor, …, err` at the site that detected it) -/
+def atCur {α : Type} (cur : Nat) : PRes α → PRes α
+  | .error (.err t none) => .error (.err t (some cur))
+  | r => r
+
+/-- the caller returns its own cursor whatever the callee reported -/
+def forceCur {α : Type} (cur : Nat) : PRes α → PRes α
+  | .error (.err t _) => .error (.err t (some cur))
+  | r => r
 
 /-- a parsed `FieldProp`: populated fields as (field number, canonical value), ascending numbers -/
 abbrev Props := List (Nat × Str)
@@ -345,7 +356,7 @@ def parseField (fuel : Nat) (h : Header) (c : Ctx) (vt : VT) (seen : Seen) (curs
     let (cursor, nameCell) := h.validName cursor
     let typeCell := h.typeAt cursor
     if nameCell.isEmpty || typeCell.isEmpty then .ok (cursor, seen, none)
-    else
+    else atCur cursor <|
       match checkConflict seen nameCell cursor with
       | none => .error (.err "E0003")
       | some seen =>
@@ -416,6 +427,7 @@ def parseMapField (fuel : Nat) (h : Header) (c : Ctx) (vt : VT) (seen : Seen) (c
   match fuel with
   | 0 => .error .fuel
   | fuel + 1 =>
+    atCur cursor <|
     match matchMap typeCell with
     | none => .error (.err "nil map descriptor")
     | some desc =>
@@ -495,6 +507,7 @@ def parseListField (fuel : Nat) (h : Header) (c : Ctx) (vt : VT) (seen : Seen) (
   match fuel with
   | 0 => .error .fuel
   | fuel + 1 =>
+    atCur cursor <|
     match matchList typeCell with
     | none => .error (.err "nil list descriptor")
     | some desc =>
@@ -558,7 +571,7 @@ def parseListField (fuel : Nat) (h : Header) (c : Ctx) (vt : VT) (seen : Seen) (
                           optName := listName, layout := .horizontal, prop := extractList prop (isScalarType sf.typ) }
               let vt' := (cursor, desc.col ++ rawProp desc.prop) :: vt
               if spanInner then
-                match parseField fuel h c vt' seen cursor (pfx' ++ [49]) with
+                match forceCur cursor (parseField fuel h c vt' seen cursor (pfx' ++ [49])) with
                 | .error e => .error e
                 | .ok (_, _, none) => .error (.err "failed to parse list inner cell element")
                 | .ok (_, seen, some tf) =>
@@ -607,6 +620,7 @@ def parseStructField (fuel : Nat) (h : Header) (c : Ctx) (vt : VT) (seen : Seen)
   match fuel with
   | 0 => .error .fuel
   | fuel + 1 =>
+    atCur cursor <|
     match matchStruct typeCell with
     | none => .error (.err "nil struct descriptor")
     | some desc =>
@@ -671,20 +685,23 @@ def sheetLoop (fuel : Nat) (h : Header) (c : Ctx) (seen : Seen) (cursor : Nat) (
 
 def defaultFuel (h : Header) : Nat := 4 * h.names.length + 64
 
-/-- the duplicate-name pre-check of `convertTable` over every non-blank name cell -/
-def precheck : List Str → Nat → Seen → Bool
-  | [], _, _ => true
+/-- the duplicate-name pre-check of `convertTable` over every non-blank name cell: the cursor of the first
+repeated name, if any -/
+def precheck : List Str → Nat → Seen → Option Nat
+  | [], _, _ => none
   | n :: ns, i, seen =>
     if n.isEmpty then precheck ns (i + 1) seen
     else
       match checkConflict seen n i with
-      | none => false
+      | none => some i
       | some s => precheck ns (i + 1) s
 
 /-- the fields of the worksheet message for header rows (`names`, `types`). (After a successful pre-check no
 two non-blank names are equal, so the per-field conflict checks of the loop never fire: the loop starts from
 an empty table, which gives the same results.) -/
 def parseSheet (c : Ctx) (h : Header) : PRes (List PField) :=
-  if precheck h.names 0 [] then sheetLoop (defaultFuel h) h c [] 0 [] else .error (.err "E0003")
+  match precheck h.names 0 [] with
+  | none => sheetLoop (defaultFuel h) h c [] 0 []
+  | some i => .error (.err "E0003" (some i))
 
 end TableauVerif.Model.Protogen
